@@ -279,3 +279,54 @@ PROPS["C06"] = {
     "tolerances": {"partials": "1e-11 of the sum of absolute terms", "totals": "as C05", "finite differences": "1e-6 * sigma + 2|D(h/2)-D(h)| + (8 eps + order-specific solve noise) |E| / h"},
     "assumptions": ["well-scaled duration domain of DESIGN.md s4"],
 }
+
+# ---------------------------------------------------------------------------------------------
+# relations between runs: C10 (spline part), C13, C14
+for d in ALL_DIMS:
+    T("spline_meta_d%d" % d, "spline_meta.cpp", defs=["VDIM=%d" % d])
+
+META_QUICK_DIMS = {"C10": [1, 2, 3, 5], "C13": [2, 3, 4, 5, 8, 10], "C14": [1, 2, 3, 4, 6]}
+OPT_C10_JOBS = []   # filled in further down (optimizer-workspace half of C10)
+
+
+def _meta_jobs(prop, per_quick, per_thorough, extra=None):
+    def jobs(tier):
+        dims = META_QUICK_DIMS[prop] if tier == "quick" else [d for d in ALL_DIMS if not (prop == "C13" and d == 1)]
+        per = per_quick if tier == "quick" else per_thorough
+        out = []
+        for d in dims:
+            out += split("spline_meta_d%d" % d, per, 2)
+        if extra:
+            out += extra(tier)
+        return out
+    return jobs
+
+
+PROPS["C10"] = {
+    "jobs": _meta_jobs("C10", 3000, 150000, lambda tier: [dict(j, cases=j["cases"] * (1 if tier == "quick" else 50)) for j in OPT_C10_JOBS]),
+    "floor_quick": 10000, "floor_thorough": 500000,
+    "rule": "histories of 2..24 operations on ONE long-lived spline object per order and dimension (quick 1,2,3,5): update through either overload with N drawn from {1,2,3,4,5,8,12,16} (growing, shrinking, same size), "
+            "interleaved with coefficient/knot-time reads, getEnergy, every energy-gradient getter, propagateGrad (both overloads, generated upstream gradients), evaluation at generated times/orders and trajectory copies; "
+            "after every update a fresh object is built from the same latest inputs and every query must agree bitwise; repeated read-only queries must repeat bitwise. "
+            "non-trivial = a query after a shrink (N decreased), or a propagate between two updates",
+    "tolerances": {"reused vs fresh": "bitwise (NaN==NaN, +0==-0)"},
+    "assumptions": ["fresh-vs-reused cannot see an error common to both (that is the job of C01..C06)", "harness built without -march=native/-ffast-math so that both objects run identical arithmetic"],
+}
+PROPS["C13"] = {
+    "jobs": _meta_jobs("C13", 2000, 100000),
+    "floor_quick": 10000, "floor_thorough": 500000,
+    "rule": "order x D (quick 2,3,4,5,8,10; thorough 2..10) x N x " + _S4 + ", through either time specification; the D-dimensional spline is compared with the D one-dimensional splines built from its columns: "
+            "coefficients, evaluations, propagated point/boundary gradients and energy gradients coordinate by coordinate, energy and duration gradients as sums over coordinates; then the same for a generated coordinate permutation. "
+            "non-trivial = columns that differ from each other (1/8 of the cases replicate a column and are counted separately)",
+    "tolerances": {"coefficients / evaluations": "1e-10 / 1e-8 / 1e-7 normalised (bitwise equality is counted, not required)", "gradients": "1e-7 of the largest entry of that kind + structural-zero floor", "energy": "1e-9 relative"},
+    "assumptions": ["D = 1 is trivially true and not run"],
+}
+PROPS["C14"] = {
+    "jobs": _meta_jobs("C14", 3000, 150000),
+    "floor_quick": 12000, "floor_thorough": 500000,
+    "rule": "order x dimension (quick 1,2,3,4,6) x N x " + _S4 + " (no common offset); one relation per case: start-time shift (also applied to an existing object via update with identical durations), translation "
+            "(exactly representable data: bitwise; generic: tolerance), data scaling by 2^k (bitwise) or generic lambda, duration scaling by 2^k with rescaled boundary derivatives (bitwise) or generic mu, time reversal "
+            "(evaluation of every derivative order at knots and interior points, energy, mirrored gradients). non-trivial = non-zero boundary derivatives (shift/translation: always; reversal: N >= 3 and asymmetric durations)",
+    "tolerances": {"power-of-two relations, shift, dyadic translation": "bitwise", "generic relations": "1e-10/1e-8/1e-7 normalised coefficients, 1e-9..1e-8 relative energy", "reversal": "10x forward tolerance (1e-7 septic), gradients 1e-6 of the largest entry of that kind"},
+    "assumptions": ["well-scaled duration domain of DESIGN.md s4"],
+}
